@@ -66,11 +66,11 @@ impl HybridImpressionInfo {
     }
 
     /// ## Errors
-    /// If deserialization fails.
-    /// ## Panics
-    /// If not enough delimiters are found in the input bytes.
+    /// If deserialization fails, including when the input is empty.
     pub fn from_bytes(bytes: &[u8]) -> Result<Self, InvalidHybridReportError> {
-        let key_id = bytes[0];
+        let Some(&key_id) = bytes.first() else {
+            return Err(InvalidHybridReportError::Length(bytes.len(), 1));
+        };
         Ok(Self { key_id })
     }
 }
@@ -186,32 +186,39 @@ impl HybridConversionInfo {
     }
 
     /// ## Errors
-    /// If deserialization fails.
+    /// If deserialization fails, including when the delimiter is missing or the
+    /// input has the wrong length.
     /// ## Panics
-    /// If not enough delimiters are found in the input bytes.
+    /// Never: the fixed-width fields are read only after the length was checked.
     pub fn from_bytes(bytes: &[u8]) -> Result<Self, InvalidHybridReportError> {
-        let mut pos = 0;
-        let delimiter_pos = bytes[pos..]
-            .iter()
-            .position(|&b| b == 0)
-            .unwrap_or_else(|| panic!("not enough delimiters for HybridConversionInfo"));
-        let conversion_site_domain = String::from_utf8(bytes[pos..pos + delimiter_pos].to_vec())
+        // key id followed by timestamp, epsilon and sensitivity
+        const FIXED_LEN: usize = 1 + 3 * 8;
+
+        let Some(delimiter_pos) = bytes.iter().position(|&b| b == 0) else {
+            return Err(InvalidHybridReportError::DeserializationError(
+                "HybridConversionInfo: conversion_site_domain",
+                "not enough delimiters for HybridConversionInfo".into(),
+            ));
+        };
+        let conversion_site_domain = String::from_utf8(bytes[..delimiter_pos].to_vec())
             .map_err(|e| {
                 InvalidHybridReportError::DeserializationError(
                     "HybridConversionInfo: conversion_site_domain",
                     e.into(),
                 )
             })?;
-        pos += delimiter_pos + 1;
-        debug_assert!(pos + 3*8 + 1 == bytes.len(), "{}", format!("bytes for HybridConversionInfo::from_bytes has incorrect length. Expected: {}, Actual: {}", pos + 3*8 + 1, bytes.len()).to_string());
+        let rest = &bytes[delimiter_pos + 1..];
+        if rest.len() != FIXED_LEN {
+            return Err(InvalidHybridReportError::Length(
+                bytes.len(),
+                delimiter_pos + 1 + FIXED_LEN,
+            ));
+        }
 
-        let key_id = bytes[pos];
-        pos += 1;
-        let timestamp = u64::from_be_bytes(bytes[pos..pos + 8].try_into().unwrap());
-        pos += 8;
-        let epsilon = f64::from_be_bytes(bytes[pos..pos + 8].try_into().unwrap());
-        pos += 8;
-        let sensitivity = f64::from_be_bytes(bytes[pos..pos + 8].try_into().unwrap());
+        let key_id = rest[0];
+        let timestamp = u64::from_be_bytes(rest[1..9].try_into().unwrap());
+        let epsilon = f64::from_be_bytes(rest[9..17].try_into().unwrap());
+        let sensitivity = f64::from_be_bytes(rest[17..25].try_into().unwrap());
 
         Ok(Self {
             key_id,
